@@ -20,7 +20,20 @@ class CustomError(Exception):
   pass
 
 
-EXC_ZOO = [ValueError, RuntimeError, KeyError, ZeroDivisionError, CustomError, IndexError, TypeError, AssertionError]
+class CustomNotImplemented(NotImplementedError):
+  pass
+
+
+class CustomLookup(KeyError):
+  pass
+
+
+# "an exception of any type": builtin families a policy can plausibly raise, incl. the ones library code
+# likes to special-case (NotImplementedError, KeyError/LookupError, StopIteration, OSError/TimeoutError)
+EXC_ZOO = [ValueError, RuntimeError, KeyError, ZeroDivisionError, CustomError, IndexError, TypeError, AssertionError,
+           NotImplementedError, CustomNotImplemented, CustomLookup, LookupError, AttributeError, ArithmeticError, OSError,
+           TimeoutError, StopIteration, OverflowError, FloatingPointError, UnicodeError, EOFError, ImportError, NameError,
+           BufferError, MemoryError, RecursionError]
 
 
 def make_policy_factory(script):
@@ -77,7 +90,8 @@ def fault_stage(c, remote):
   for it in range(n):
     rng = c.rng
     k = rng.randrange(0, 3)
-    exc = rng.choice(EXC_ZOO)
+    # every exception type is used at least once per run (round robin from a seed-dependent offset)
+    exc = EXC_ZOO[(it + c.seed) % len(EXC_ZOO)]
     mode = rng.choice(['first', 'kth', 'every', 'short', 'zero', 'over'])
     plan = {'first': [('raise', exc)] + [('deliver', 0)] * 50,
             'kth': [('deliver', 0)] * k + [('raise', exc)] + [('deliver', 0)] * 50,
@@ -85,7 +99,7 @@ def fault_stage(c, remote):
             'short': [('deliver', -1), ('deliver', 0)],
             'zero': [('deliver', -100), ('deliver', 0)],
             'over': [('deliver', 2), ('deliver', 0)]}[mode]
-    es_mode = rng.choice(['raise-once', 'raise-second', 'raise-second-third', 'raise-alternate', 'ok'])
+    es_mode = ['raise-once', 'raise-second', 'raise-second-third', 'raise-alternate', 'ok'][(it // len(EXC_ZOO) + it) % 5] if not remote else rng.choice(['raise-once', 'raise-second', 'raise-alternate', 'ok'])
     es_plan = {'raise-once': [('raise', exc)] + [('ok', None)] * 50,
                'raise-second': [('ok', None), ('raise', exc)] + [('ok', None)] * 50,
                'raise-second-third': [('ok', None), ('raise', exc), ('raise', exc)] + [('ok', None)] * 50,
@@ -165,12 +179,21 @@ def fault_stage(c, remote):
         es_before = script['es_calls']
         outcomes = []
         n_checks = 5
+        planned = []
         for _ in range(n_checks):
+          calls_before = script['es_calls']
           try:
             r = sv.CheckTrialEarlyStoppingState(vsp.CheckTrialEarlyStoppingStateRequest(trial_name=t.name))
             outcomes.append('ok')
           except Exception as e:  # pylint: disable=broad-except
             outcomes.append('EXC:' + type(e).__name__)
+          planned.append(script['es'][calls_before % len(script['es'])][0] if script['es_calls'] > calls_before else 'not-consulted')
+        case['es_planned'] = planned
+        # the failure must be REPORTED: a check during which the algorithm raised does not answer normally
+        silent = [i for i, (pl, o) in enumerate(zip(planned, outcomes)) if pl == 'raise' and o == 'ok']
+        if silent:
+          c.prop_fail('earlystop-failure-not-reported',
+                      'the early-stopping algorithm raised %s at check(s) %s but CheckTrialEarlyStoppingState answered normally' % (exc.__name__, silent), case)
         consulted = script['es_calls'] - es_before
         case['es_outcomes'] = outcomes
         case['es_consulted'] = consulted
